@@ -365,7 +365,58 @@ def rule_hint_position(run):
     run.end()
 
 
-RULES = [rule_reserved, rule_vocabulary, rule_names, rule_templates, rule_choices, rule_sensitivity, rule_buffers, rule_castmatrix, rule_concat_cast, rule_visit_unconditional, rule_shadow, rule_hint_position]
+def rule_sensitivity_merge(run):
+    run.begin(
+        "C06.j",
+        "explicit sensitivity declarations accumulate: after sensitivity.list(a) and sensitivity.list(b) the process is "
+        "sensitive to a AND b; `all` absorbs lists (abstract evaluation of PrepareAst.add_sensitivity)",
+        floor=4,
+    )
+    from ..absint import Interp, Reject
+    prep = run.idx.mod("cohdl/_compiler/frontend/_prepare_ast.py")
+    f = prep.func("PrepareAst.add_sensitivity")
+
+    class _SensitivityList:
+        def __init__(self, signals):
+            self.signals = list(signals)
+
+    class _SensitivityAll:
+        pass
+
+    class _Self:
+        def __init__(self):
+            self._parent, self._sensitivity = None, None
+
+    prims = {"isinstance": lambda v, t: isinstance(v, t if isinstance(t, (type, tuple)) else ()), "_SensitivityList": _SensitivityList, "_SensitivityAll": _SensitivityAll,
+             "__setattr__": lambda o, k, v: setattr(o, k, v)}
+
+    def run_seq(seq):
+        so = _Self()
+        for x in seq:
+            arg = _SensitivityAll() if x == "all" else _SensitivityList(x)
+            Interp(prep, dict(prims)).call_function("PrepareAst.add_sensitivity", so, arg)
+        r = so._sensitivity
+        return "all" if isinstance(r, _SensitivityAll) else (list(r.signals) if isinstance(r, _SensitivityList) else r)
+    for seq, exp in (((["a"], ["b"]), ["a", "b"]), ((["a", "b"], ["c"], ["d"]), ["a", "b", "c", "d"]), ((["a"], "all"), "all"), (("all", ["a"]), "all"), ((["a"],), ["a"])):
+        try:
+            got = run_seq(seq)
+        except Reject as e:
+            got = f"rejected: {e}"
+        run.ob(got == exp, "PrepareAst.add_sensitivity", file=prep.rel, line=f.node.lineno, detail=str(list(seq)), expected=str(exp), found=str(got))
+    run.end()
+
+
+def rule_interface_names(run):
+    from . import c12
+    c12.rule_interface(run)      # the entity declares each port under the name every port map and the body use
+
+
+def rule_refspec(run):
+    from . import c08
+    c08.rule_refspec_reads(run)  # replaced index objects are stored back (otherwise a process variable is used at architecture level)
+
+
+RULES = [rule_reserved, rule_vocabulary, rule_names, rule_templates, rule_choices, rule_sensitivity, rule_buffers, rule_castmatrix, rule_concat_cast, rule_visit_unconditional, rule_shadow, rule_hint_position, rule_sensitivity_merge, rule_interface_names, rule_refspec]
 LEVEL = "other"
 EXPLANATION = (
     "Legality clauses that are properties of the back end's own tables and templates, decided for all designs: the "
